@@ -71,6 +71,8 @@ def build_pop(m, scale=1.0, delay_jitter=0.0, name='popnet'):
         W[pops[kt].index(e['t']), pops[ks].index(e['s'])] += e['w'] / scale
     conns = []
     for (ks, kt, lag, spread), W in groups.items():
+        if not lag and not spread and W.size > 1 and np.all(W == W.flat[0]) and W.flat[0] != 0:
+            W = float(W.flat[0])          # uniform all-to-all block: the scalar (global) weight form
         conns.append(Connectivity(f'p{ks}/lin{ks}/x', f'p{kt}/lin{kt}/u', W,
                                   delays=((lag + delay_jitter) * scale if lag else None),
                                   spread=(spread * scale if spread else None)))
